@@ -36,6 +36,7 @@ uint64_t G_bytes_accepted;       /* sum of size*r over fwrite calls */
 static char G_stream_object;     /* the one FILE object of the model */
 #define G_stream ((FILE *)(void *)&G_stream_object)
 _Bool G_stream_open;             /* G_stream is currently open */
+unsigned G_fopen_ok;             /* fopen calls that succeeded */
 unsigned G_fopen_calls, G_fclose_calls, G_fflush_calls, G_fwrite_calls, G_remove_calls;
 const char *G_removed_path;      /* argument of the last remove() */
 const char *G_fopen_path;        /* argument of the last fopen() */
@@ -79,6 +80,7 @@ FILE *fopen(const char *path, const char *mode) {
   G_fopen_path = path;
   if (nondet_bool()) return (FILE *)0;
   G_stream_open = 1;
+  G_fopen_ok++;
   return G_stream;
 }
 
